@@ -177,6 +177,7 @@ type ModelCut struct {
 	Records   []Rec    `json:"records"`
 	Other     []int    `json:"other_record_types"` // record types outside the model (must be empty)
 	Restored  Dump     `json:"restored"`
+	Reads     [3]uint64 `json:"reads"` // restored store: KVSList("") index, SessionList index, PreparedQueryList index
 	Final     *Dump    `json:"final,omitempty"` // restored FSM after the suffix
 	Failures  []string `json:"failures,omitempty"`
 }
@@ -544,7 +545,9 @@ func decodeRecords(b []byte) (uint64, []Rec, []int, error) {
 			if err := dec.Decode(&ignore); err != nil {
 				return err
 			}
-			other = append(other, int(msg))
+			if msg != structs.ChunkingStateType {
+				other = append(other, int(msg))
+			}
 		}
 		return nil
 	})
@@ -811,10 +814,19 @@ func (g *mgen) next() Cmd {
 					live = true
 				}
 			}
-			if !live || g.rng.Intn(10) == 0 {
+			if !live {
 				break
 			}
 			c.Sid = g.pick(mSessIDs)
+		}
+		for _, l := range g.liveSessions() {
+			if l == c.Sid {
+				// the endpoint always picks an unused id (Session.Apply loops until SessionGet finds none)
+				c.Kind = "session_destroy"
+			}
+		}
+		if c.Kind == "session_destroy" {
+			break
 		}
 		c.Node = g.nodeName()
 		c.Name = g.pick(mSessNames)
@@ -953,6 +965,9 @@ func runModelHistory(id int, seed int64, mix string, n int, script []Cmd) ModelH
 			continue
 		}
 		mc.Restored = modelDump(m.store())
+		mc.Reads[0], _, _ = m.store().KVSList(nil, "", nil)
+		mc.Reads[1], _, _ = m.store().SessionList(nil, nil)
+		mc.Reads[2], _, _ = m.store().PreparedQueryList(nil)
 		addF(compareDumps(k, "dump", dumps[k], dumpStore(m.store())))
 		for i := k; i < n; i++ {
 			res := canonResult(m.apply(h.Cmds[i].Idx, mEncode(&h.Cmds[i])))
